@@ -1,3 +1,4 @@
+#![allow(dead_code, unused_imports, unused_assignments)]
 //! vh — verification harness worker for AE9RB/basic-lang (runtime monitoring family).
 //!
 //! `vh run <PROP> --tier quick|thorough --seed N --shard i/n --out DIR [--start K] [--only K]`
@@ -5,6 +6,7 @@
 //! Prints JSON lines (sample / viol / hang / done) on stdout; the orchestrator (`/verif/check`)
 //! aggregates them into the verdict and the evidence file.
 
+mod alloc;
 mod conv;
 mod ctx;
 mod drive;
@@ -13,6 +15,9 @@ mod model;
 mod mon;
 mod props;
 mod rng;
+
+#[global_allocator]
+static GLOBAL: alloc::Counting = alloc::Counting;
 
 use ctx::{Ctx, Tier};
 use rng::Rng;
